@@ -3,11 +3,14 @@
     cross_validate / cross_validate_single; src/dataset/iter.rs: ChunksIter).
     Definitions only.  [None] stands for a panic of the Rust code.
 
-    Two levels, as in the code:
+    Three levels, as in the code:
     - `fold` works on ndarray values (chunk views, concatenate, Vec::swap): modelled on lists of rows;
     - `iter_fold` works on the flat row-major buffers of records and targets (different widths):
-      modelled on flat lists, with the widths as parameters. *)
-From Coq Require Import List Arith NArith Bool.
+      modelled on flat lists, with the widths as parameters;
+    - which arrays HAVE such a flat buffer (`as_slice_mut()` = ndarray's is_standard_layout test on
+      shape and strides) is the last part: (offset, strides) descriptions over a parent buffer,
+      `iter_fold_strided` / `cross_validate_strided`. *)
+From Coq Require Import List Arith NArith ZArith Bool.
 From LinfaVerif Require Import Common.Num.
 Import ListNotations.
 
@@ -242,15 +245,17 @@ Definition fold_eval (tcols : nat) (item : (E + list M) * (list A * list B)) : E
 
 (** [t] = ntargets() (1 for one-dimensional targets).  Result: error or the nmodels x t score matrix,
     together with the buffers the dataset holds afterwards. *)
+Definition cv_finish (k nmodels t : nat) (items : list ((E + list M) * (list A * list B))) : E + list (list F) :=
+  match collect (map (fold_eval t) items) with
+  | inl e => inl e
+  | inr fes => inr (mdiv (fold_left madd fes (zeros nmodels t)) (of_N o (N.of_nat k)))
+  end.
+
 Definition cross_validate_model (k nmodels n w t : nat) (rb : list A) (tb : list B)
   : option ((E + list (list F)) * (list A * list B)) :=
   match iter_fold_model (fit_all nmodels) k n w t rb tb with
   | None => None
-  | Some (items, fin) =>
-      Some (match collect (map (fold_eval t) items) with
-            | inl e => inl e
-            | inr fes => inr (mdiv (fold_left madd fes (zeros nmodels t)) (of_N o (N.of_nat k)))
-            end, fin)
+  | Some (items, fin) => Some (cv_finish k nmodels t items, fin)
   end.
 
 (** specification side: the outcome of fold i from the closed forms of its training view
@@ -263,3 +268,98 @@ Definition fold_outcome (k nmodels n w t : nat) (rb : list A) (tb : list B) (i :
   | inr models => eval_models t models (block (fs * w) i rb) (block (fs * t) i tb)
   end.
 End CV.
+
+(** * Storage layouts: what `iter_fold` / `cross_validate` do on arrays that are not standard row-major
+
+    An ndarray array or view of shape (rows, cols) is a window description over a memory buffer:
+    element (r, c) lives at  off + r*s0 + c*s1  (strides may be negative or zero; one-dimensional
+    targets are the case cols = 1 with s0 the only stride).  `iter_fold` starts with
+    `self.records.as_slice_mut().unwrap()` and `targets.as_slice_mut().unwrap()`; `as_slice_mut`
+    is `Some(from_raw_parts_mut(ptr, len))` exactly when `is_standard_layout()` (ndarray 0.15.6
+    dimension::is_layout_c: an empty array is standard; otherwise every axis of length <> 1 must
+    carry the stride of a row-major array - the stride of an axis of length 1 is ignored), else
+    `None`, and the `unwrap` panics: the documented panic "data is not stored contiguously and in
+    standard order".  `fold` and `sample_chunks` only index logically and are layout-agnostic. *)
+Record view2 := mkView { vw_off : nat; vw_rows : nat; vw_cols : nat; vw_s0 : Z; vw_s1 : Z }.
+
+Definition vw_index (v : view2) (r c : nat) : Z :=
+  (Z.of_nat (vw_off v) + Z.of_nat r * vw_s0 v + Z.of_nat c * vw_s1 v)%Z.
+
+(** every element of the view lies inside a buffer of [len] cells *)
+Definition vw_inb (v : view2) (len : nat) : bool :=
+  forallb (fun r => forallb (fun c => (0 <=? vw_index v r c)%Z && (vw_index v r c <? Z.of_nat len)%Z)
+                            (seq 0 (vw_cols v))) (seq 0 (vw_rows v)).
+
+(** dimension::is_layout_c for two axes (and, with cols = 1, for one axis) *)
+Definition is_standard (v : view2) : bool :=
+  (vw_rows v =? 0) || (vw_cols v =? 0)
+  || (((vw_cols v =? 1) || (vw_s1 v =? 1)%Z) && ((vw_rows v =? 1) || (vw_s0 v =? Z.of_nat (vw_cols v))%Z)).
+
+Section Layout.
+Context {A : Type}.
+Variable d : A.                                   (* filler for out-of-range reads; never used when vw_inb holds *)
+
+(** the logical (row-major iteration order) contents of the view *)
+Definition vw_logical (v : view2) (buf : list A) : list A :=
+  flat_map (fun r => map (fun c => nth (Z.to_nat (vw_index v r c)) buf d) (seq 0 (vw_cols v)))
+           (seq 0 (vw_rows v)).
+
+(** as_slice_mut(): the rows*cols cells starting at the first element, for standard layout only *)
+Definition as_slice (v : view2) (buf : list A) : option (list A) :=
+  if is_standard v then Some (firstn (vw_rows v * vw_cols v) (skipn (vw_off v) buf)) else None.
+
+(** the buffer after the slice obtained from as_slice_mut has been overwritten by [win] *)
+Definition write_back (v : view2) (buf win : list A) : list A :=
+  firstn (vw_off v) buf ++ win ++ skipn (vw_off v + vw_rows v * vw_cols v) buf.
+
+(** what a (hypothetical) implementation using as_slice_memory_order_mut - the cells of the window
+    in MEMORY order, accepted for any contiguous layout - would hand to the swap macro for a
+    column-major array: the silent misalignment the oracle has to reject *)
+Definition memory_order_slice (v : view2) (buf : list A) : list A :=
+  firstn (vw_rows v * vw_cols v) (skipn (vw_off v) buf).
+End Layout.
+
+Section IterFoldStrided.
+Context {A B Obj : Type}.
+Variable da : A.
+Variable db : B.
+Variable fit_closure : list A * list B -> Obj.
+
+(** iter_fold on a dataset given by its two views and the buffers they point into; result: the
+    items and the two whole buffers afterwards.  [None] = panic (k = 0, k > n, or an unwrap of
+    as_slice_mut() = None). *)
+Definition iter_fold_strided (k : nat) (rv tv : view2) (rbuf : list A) (tbuf : list B)
+  : option (list (Obj * (list A * list B)) * (list A * list B)) :=
+  let n := vw_rows rv in let w := vw_cols rv in let t := vw_cols tv in
+  if k =? 0 then None else if n <? k then None else
+  match as_slice rv rbuf with None => None | Some rb =>
+  match as_slice tv tbuf with None => None | Some tb =>
+    let fs := n / k in
+    match iter_loop fit_closure k 0 fs w t rb tb with
+    | None => None
+    | Some (objs, (rb', tb')) =>
+        let rbuf' := write_back rv rbuf rb' in
+        let tbuf' := write_back tv tbuf tb' in
+        match sample_chunks fs n w t (vw_logical da rv rbuf') (vw_logical db tv tbuf') with
+        | None => None
+        | Some vs => Some (combine objs vs, (rbuf', tbuf'))
+        end
+    end
+  end end.
+End IterFoldStrided.
+
+Section CVStrided.
+Context {F : Type} (o : NumOps F) {A B E M P : Type}.
+Variable da : A.
+Variable db : B.
+Variable fit : nat -> list A * list B -> E + M.
+Variable predict : M -> list A -> P.
+Variable eval : P -> list B -> E + list F.
+
+Definition cross_validate_strided (k nmodels : nat) (rv tv : view2) (rbuf : list A) (tbuf : list B)
+  : option ((E + list (list F)) * (list A * list B)) :=
+  match iter_fold_strided da db (fit_all fit nmodels) k rv tv rbuf tbuf with
+  | None => None
+  | Some (items, fin) => Some (cv_finish o predict eval k nmodels (vw_cols tv) items, fin)
+  end.
+End CVStrided.
